@@ -537,6 +537,9 @@ func (f *Frame) resolveLocal(name string, h *ssa.BasicBlock, st *State) (CVal, b
 			switch d := in.(type) {
 			case *ssa.DebugRef:
 				if id, ok := d.Expr.(*ast.Ident); ok && id.Name == name {
+					if v, isVar := d.Object().(*types.Var); isVar && v.IsField() {
+						continue // the Sel identifier of a field selector, not a local
+					}
 					consider(d.X, d.IsAddr, i)
 				}
 			case *ssa.Phi:
@@ -580,6 +583,9 @@ func (f *Frame) hasLocal(name string) bool {
 		for _, in := range b.Instrs {
 			if d, ok := in.(*ssa.DebugRef); ok {
 				if id, ok := d.Expr.(*ast.Ident); ok && id.Name == name {
+					if v, isVar := d.Object().(*types.Var); isVar && v.IsField() {
+						continue
+					}
 					return true
 				}
 			}
